@@ -82,6 +82,19 @@ Accept(e) ==
     \* the same source read by several queries of one statement (UNION ALL over a common table expression or
     \* sub-query) or again by a later statement: what each part gives alone, in order (C14)
     [] e.kind = "concat"   -> e.whole = Concat(e.parts)
+    \* FROM t, LATERAL (SELECT COUNT(*) FROM u WHERE u.c = t.c): one row per row of t, in order, with its own count
+    [] e.kind = "lateralcount" ->
+         /\ Len(e.res) = Len(e.L)
+         /\ \A i \in 1..Len(e.L) :
+              /\ TextOf(e.res[i][1]) = TextOf(e.L[i][1])
+              /\ e.res[i][2].hasI
+              /\ e.res[i][2].i = Cardinality({j \in 1..Len(e.R) : Eq(e.R[j][e.ri], e.L[i][e.li]) = "T"})
+    \* recursive common table expression over an acyclic edge table
+    [] e.kind = "recursive" ->
+         LET exp == RecResultAll(e.edges, e.k0, e.depth) IN
+         IF e.all THEN SameBag(e.res, exp)
+         ELSE /\ Range(e.res) = Range(exp)                      \* UNION: each distinct row ...
+              /\ Cardinality(Range(e.res)) = Len(e.res)         \* ... exactly once
     \* SELECT (cond) FROM t : the three-valued result of the condition for every row, in order
     [] e.kind = "truth"    -> e.res = [i \in 1..Len(e.in) |-> Truth(e.cond, e.in[i])]
 
